@@ -18,7 +18,9 @@ the harness produces independently from the value's `Serialize` implementation.
 carries for that variant (`Serde.serIndex`: declaration index, skipped variants included) and the
 variant that index selects when read back (`Serde.deVariant`: consecutive numbering of the non-skipped
 variants), both computed from the generated table; the harness reports the index `bincode` really
-wrote and the variant it really restored.
+wrote and the variant it really restored (a skipped variant: `ser=-`, it cannot be written).
+
+`destruct …`: see `handleDestruct`.
 -/
 namespace LinfaSpec.Drv.C19
 open LinfaSpec.Proto LinfaSpec.Wire
@@ -76,11 +78,40 @@ def handleVarIdx (toks : List String) : Option String := do
         | none => "-"
       some s!"ok ser={k} back={back}"
 
+/-- marker standing for the default of a skipped field (its value is not on the wire) -/
+def skipMark : Val := .str [0x21]
+
+def showFieldVals : List FieldInfo → List Val → List String
+  | f :: fs, v :: vs => (f.name ++ "=" ++ (if f.skip then "!" else render v)) :: showFieldVals fs vs
+  | _, _ => []
+
+/-- `destruct type=<crate::Struct> named=<0|1> bytes=<hex>`: the bytes (written by the real `rmp-serde`, possibly
+with entries reordered / duplicated / added / dropped by the harness) are decoded and handed to the glue model's
+`Serde.deStruct` on the generated table entry — the function `struct_compact_roundtrip`, `struct_named_roundtrip`,
+`named_layout_order_irrelevant`, `unknown_key_ignored`, `duplicate_key_rejected`, `missing_required_field_fails`
+are about.  The answer lists the field values it yields (the harness lists what the real derive(Deserialize)
+yielded), and whether `Serde.structVal` on those values encodes to the very bytes received (`back=1`). -/
+def handleDestruct (toks : List String) : Option String := do
+  let ty ← arg toks "type"
+  let named ← argNat toks "named"
+  let bs ← (arg toks "bytes").bind parseBytes
+  match findType ty with
+  | none => some "unknown-type"
+  | some t =>
+    if t.kind != "struct" then some "not-a-struct" else
+    match (decodeAll bs).bind (LinfaSpec.Serde.deStruct (fun _ => skipMark) t.fields) with
+    | none => some "err"
+    | some vs =>
+      let back := if encode (LinfaSpec.Serde.structVal (named == 1) t.fields vs) == bs then 1 else 0
+      let fields := String.intercalate ";" (showFieldVals t.fields vs)
+      some s!"ok back={back} fields={if fields.isEmpty then "-" else fields}"
+
 def handle (toks : List String) : String :=
   let r := match toks with
     | "wire" :: rest => handleWire rest
     | "schema" :: rest => handleSchema rest
     | "varidx" :: rest => handleVarIdx rest
+    | "destruct" :: rest => handleDestruct rest
     | _ => none
   r.getD "bad-op"
 
